@@ -594,6 +594,32 @@ def light_composite_cases(rng, _n):
     return cases
 
 
+def long_value_cases(rng, _n):
+    """Elements whose Debug text is long and non-ASCII (hundreds to thousands of bytes of 2- and 3-byte characters, shifted by 0-2 ASCII
+    bytes so that every fixed byte offset falls inside a character of one of them), probed and rejected by a set pattern that has a
+    matching assignment, and failing a leaf: the assertion passes / reports the whole Debug text (seeds C02-12, C03-12: the recorded
+    text clipped with String::truncate at a byte count - a panic inside push, also on the passing path of a set search)."""
+    import tgen
+    cases = []
+    k = 0
+    longs = [("", "é", 700), ("a", "é", 700), ("", "日", 500), ("a", "日", 500), ("ab", "日", 500), ("", "é", 120), ("a", "é", 120), ("", "😀", 300), ("abc", "😀", 300)]
+    pats = [('#("short", _)', True), ('#(_, "short")', True), ('#("short", ..)', True), ('#("short", "other")', False), ('["short", "short"]', False), ('[_, "short"]', True)]
+    for (pre, ch, n) in longs:
+        L = pre + ch * n
+        val = 'vec![format!("{}{}", "%s", "%s".repeat(%d)), "short".to_string()]' % (pre, ch, n)
+        sx = "(seq (str %s) (str %s))" % (tgen.hexs(L), tgen.hexs("short"))
+        for pat, _matches in pats:
+            c = t3.Case()
+            c.id = k
+            k += 1
+            c.forms = {"long-non-ascii-values": 1}
+            c.perturbed = not _matches
+            c.meanings = "(meanings)"
+            t3.finish_case(c, "", "Vec<String>", val, sx, pat)
+            cases.append(c)
+    return cases
+
+
 def set_palette_cases(rng, n):
     from checks import c10
     return c10.macro_cases(rng, n)
@@ -724,6 +750,7 @@ def check(ck, aspect, theorems, t2_parts=("body", "status")):
                                 ("eq-literal-text", eq_literal_text_cases, "expected expressions with blanks and `::` inside string literals"),
                                 ("range-boundary", range_boundary_cases, "integer and float ranges against values at and next to every bound"),
                                 ("light-composite-siblings", light_composite_cases, "composites that generate little or no code (`#()`, `#(..)`, `[]`, `#{..}`, `(_, _)`, `_`) before and after failing siblings"),
+                                ("long-non-ascii-values", long_value_cases, "elements with long non-ASCII Debug texts rejected by set probes on the passing path, and failing a leaf"),
                                 ("c10-macro", set_palette_cases, "set patterns from a palette of element patterns over every listed order of small collections")):
         fam = t3.run_corpus(ck, name, 0, per_bin=40, positions=maker)
         stats, mism = t3.compare(ck, fam, name)
